@@ -35,7 +35,7 @@ def cases(ctx):
         if rng.random() < 0.3:
             fcfg["pp"] = (fcfg["pp"] or []) + [ipgen.rand_net4(rng, 32)]
         yield {"kind": "dump", "fcfg": fcfg, "seed": rng.getrandbits(32), "nfiles": rng.randint(1, 8),
-               "cli": rng.random() < ctx.pick(0.08, 0.05), "bad_files": rng.choice([0, 0, 1, 2])}
+               "cli": rng.random() < ctx.pick(0.08, 0.05), "bad_files": rng.choice([0, 0, 1, 2]), "stale_dump": rng.random() < 0.3}
 
 
 def read_pairs(segs, out_line):
@@ -73,6 +73,10 @@ def check_case(ctx, case):
         # no ':port' suffixes here: tokens are read back by position as maximal [0-9a-f.:] runs
         lns = [[s for s in segs if not (s[1]["t"] == "d" and s[0].startswith(":"))] for segs in lns]
         files.append(lns)
+    if rng.random() < 0.5:
+        # an IPv4 address and an IPv6 address below 2**32 with the same integer value in one run
+        v = rng.choice([9, 0x01020304, rng.getrandbits(32), rng.getrandbits(24)])
+        files.append([[["peer ", {"t": "d"}], [ipref.s4(v), {"t": "v4", "v": v}], [" ", {"t": "d"}], [ipref.s6(v), {"t": "v6", "v": v}]]])
     wd = tempfile.mkdtemp(dir=os.path.join(load.VERIF, ".work"))
     try:
         src, dst, dump = os.path.join(wd, "in"), os.path.join(wd, "out"), os.path.join(wd, "map.tsv")
@@ -87,6 +91,11 @@ def check_case(ctx, case):
                 with open(os.path.join(src, "f%d_bad.cfg" % rng.randrange(len(files))), "wb") as fh:
                     fh.write(b"\xff\xfe\x80 1.2.3.4 not text\n")
             ctx.count("runs_with_failing_files")
+        if case.get("stale_dump"):
+            # the dump path already holds an earlier run's map
+            with open(dump, "w") as fh:
+                fh.write("9.9.9.9\t8.8.8.8\n1::9\t2::8\n")
+            ctx.count("runs_with_stale_dump_file")
         if use_cli:
             argv = ["-a", "-i", src, "-o", dst, "-d", dump, "--preserve-host-bits", str(fcfg["B4"])] + c02.cli_ip_args(fcfg)
             p = c02.run_cli(argv, rng.randint(1, 9999))
